@@ -326,6 +326,20 @@ theorem plan_metric_correct_range (o : Oracles) (c : MCtx) (hn : c.namesOk) (d :
     (evalSelA o (d.toDbM c) (planMetric c (.range r))).map normRow = evalMetric o c d (.range r) :=
   planMetric_range_lra o c hn d r fn hk hm hms hd hs hstep
 
+/-- **plan_metric_correct, class `aggOp by/without (…) (rangeFn({selector} [d]) [cmp]) [cmp]`** — sum, min, max, avg,
+    count with a grouping clause (prefix or suffix position) over a range aggregation of the class above. The
+    statement additionally contains `pre_without_<id>` (the range stage), `labels_<id>` (every admissible series row
+    with the labels the grouping keeps and cityHash64 of exactly those) and `lra_main`; its rows are exactly the
+    direct reading's: every range point moved to the series of its kept label set, the points of one (series,
+    timestamp) aggregated by the written operator, both comparisons applied where written. -/
+theorem plan_metric_correct_agg (o : Oracles) (c : MCtx) (hn : c.namesOk) (d : LokiDb) (a : VecAgg) (fn : RangeFn)
+    (g : Grouping) (hk : a.inner.kind = .lra fn) (hg : chosenGrouping a.byPrefix a.bySuffix = some g)
+    (hfn : a.fn ≠ .stddev ∧ a.fn ≠ .stdvar)
+    (hm : a.inner.sel.matchers.length ≤ 63) (hms : 1000000 ∣ a.inner.durNs) (hd : 0 < a.inner.durNs)
+    (hs : takesShortcut (.agg a) = false) (hstep : c.stepNs ≤ (a.inner.durNs : Int)) :
+    (evalSelA o (d.toDbM c) (planMetric c (.agg a))).map normRow = evalMetric o c d (.agg a) :=
+  planMetric_agg_lra o c hn d a fn g hk hg hfn hm hms hd hs hstep
+
 /-! ## non-vacuity -/
 example : LraRows [[("_string", .str [97, 98])]] [⟨1, 5, [97, 98], 1⟩] := by unfold LraRows; decide
 example : UnwrapRows [[("unwrap_1.value", .rat 2), ("unwrap_1.timestamp_ns", .int 7)]] [(7, 2)] := by unfold UnwrapRows; decide +kernel
